@@ -15,7 +15,7 @@ PROPS: dict[str, dict] = {
         "explanation": "attach_payload contracts (write-once, rejected attach changes nothing, frame) + AST scan: no other payload write in the library",
     },
     "C06": {
-        "modules": ["meta"],
+        "modules": ["c20"],
         "assumptions": ["leaf relations declare truthful columns and row bounds (hypothesis of the property)",
                         "laws of tier L (length/columns of the row-sequence operators), see spec/laws.py"],
         "explanation": "truthfulness of columns/min_rows/max_rows as attribute contracts proved per operation class; flags imply content",
